@@ -82,6 +82,15 @@ func intern(t *Term) *Term {
 	if t.Op == OBool {
 		fmt.Fprintf(&sb, "%v", t.B)
 	}
+	if t.Op == OVar || t.Op == OApp {
+		// bounds are part of a variable's identity: different paths may reuse a fresh name with other bounds
+		if t.Lo != nil {
+			sb.WriteString("[" + t.Lo.String())
+		}
+		if t.Hi != nil {
+			sb.WriteString("]" + t.Hi.String())
+		}
+	}
 	for i, a := range t.Args {
 		fmt.Fprintf(&sb, ",%d", a.ID)
 		if t.Coef != nil {
@@ -954,7 +963,8 @@ func BitLen(a *Term) *Term {
 	if v, ok := a.ConstInt(); ok {
 		return I64(int64(v.BitLen()))
 	}
-	t := &Term{Op: OBitLen, Sort: Int, Args: []*Term{a}, Lo: bi0}
+	// no integer in these programs has more than 2^24 bits
+	t := &Term{Op: OBitLen, Sort: Int, Args: []*Term{a}, Lo: bi0, Hi: big.NewInt(1 << 24)}
 	if a.Lo != nil && a.Hi != nil {
 		m := maxB(new(big.Int).Abs(a.Lo), new(big.Int).Abs(a.Hi))
 		t.Hi = big.NewInt(int64(m.BitLen()))
